@@ -929,3 +929,52 @@ impl World {
 pub fn is_disconnected(r: &SendRes) -> bool {
     matches!(r, SendRes::Err(SendErr::Disconnected) | SendRes::Ready(false))
 }
+
+/// Decode a byte string into sink operations (two bytes each: opcode, argument), for the coverage-guided target
+/// `fuzz/fuzz_targets/sink.rs`: every byte string is some history, similar strings are similar histories.
+pub fn decode_ops(data: &[u8], max: usize) -> Vec<Op> {
+    const KINDS: [SendKind; 7] = [SendKind::Qos0, SendKind::Qos1, SendKind::Qos2, SendKind::Subscribe, SendKind::Unsubscribe, SendKind::Ready, SendKind::NoBlock];
+    let mut out = Vec::new();
+    for ch in data.chunks_exact(2).take(max) {
+        let (o, a) = (ch[0], ch[1]);
+        let kind = KINDS[usize::from(a & 7) % KINDS.len()];
+        out.push(match o % 23 {
+            0 | 1 => Op::Send { kind, again: a & 8 != 0, own_id: if a & 0x30 == 0x30 { a >> 6 } else { 0 } },
+            2 => Op::Create { kind, again: a & 8 != 0, own_id: 0 },
+            3 | 4 => Op::Poll(a),
+            5 => Op::DropFut(a),
+            6 | 7 => Op::Ack { n: 1 + a % 3, batch: a & 4 != 0 },
+            8 => Op::Window(a & 1 != 0),
+            9 => Op::Yield(a % 4),
+            10 => Op::Settle,
+            11 => Op::Release(a),
+            12 => Op::DropReceipt(a),
+            13 => Op::SendBad { kind, how: a >> 3 },
+            14 => Op::StreamStart { qos: a & 1, declared: [0u8, 1, 3, 6, 9, 11, 200, 5][usize::from(a >> 1) % 8], bad: [0u8, 0, 0, 1, 2, 3][usize::from(a >> 4) % 6] },
+            15 | 16 => Op::Chunk { stream: a & 1, len: (a >> 1) % 6 },
+            17 => Op::StreamDrop(a),
+            18 => Op::Inbound(a % 4),
+            19 => Op::Hold(a & 1 != 0),
+            20 => Op::AckDev([Dev::WrongType(4), Dev::WrongType(5), Dev::WrongType(7), Dev::WrongType(9), Dev::WrongType(11), Dev::WrongId, Dev::Duplicate, Dev::Reorder][usize::from(a) % 8]),
+            21 => Op::Close(a),
+            _ => Op::PeerFault(a),
+        });
+    }
+    out
+}
+
+/// Inverse of `decode_ops` by search (seed corpus of the `sink` target): operations the byte form cannot express are left out.
+pub fn encode_ops(ops: &[Op]) -> Vec<u8> {
+    let mut out = Vec::new();
+    for op in ops {
+        'search: for o in 0u8..23 {
+            for a in 0u8..=255 {
+                if decode_ops(&[o, a], 1).first() == Some(op) {
+                    out.extend_from_slice(&[o, a]);
+                    break 'search;
+                }
+            }
+        }
+    }
+    out
+}
